@@ -332,8 +332,9 @@ def footprint(pp, op, x):
     return {id(x): x}
 
 
-def run_history(pp, prog, with_mut, on_mut=None):
-    """build the history; on_mut(b, op, var, expr, phase, k) is called before/after the k-th in-place statement"""
+def run_history(pp, prog, with_mut, on_mut=None, on_copy=None):
+    """build the history; on_mut(b, op, var, expr, phase, k) is called before/after the k-th in-place statement,
+    on_copy(b, src var, new var | None, phase) around every plain copy statement (copy / call)"""
     p2, k = [], 0
     for st in prog:
         if st[0] == MUT:
@@ -343,12 +344,18 @@ def run_history(pp, prog, with_mut, on_mut=None):
             p2.append(st)
             p2.append(["_", "use", st[2], {"phase": "post", "op": st[1], "k": k}])
             k += 1
+        elif on_copy is not None and st[1] in ("copy", "call") and st[0] != "_":
+            p2.append(["_", "use", st[2], {"phase": "pre", "op": "copy", "k": -1}])
+            p2.append(st)
+            p2.append(["_", "use", st[0], {"phase": "post", "op": "copy", "k": -1, "src": st[2]}])
         else:
             p2.append(st)
 
     def hook(b, var, expr, payload):
         if isinstance(payload, dict) and "phase" in payload:
-            if on_mut is not None:
+            if payload["op"] == "copy":
+                on_copy(b, payload.get("src", var), var, payload["phase"])
+            elif on_mut is not None:
                 on_mut(b, payload["op"], var, expr, payload["phase"], payload["k"])
             return
         # a plain use: parse with it (streamlines it and everything below)
@@ -356,6 +363,65 @@ def run_history(pp, prog, with_mut, on_mut=None):
         c12.fingerprint(pp, expr, ["a b", ""])
 
     return gram.build(pp, p2, use_hook=hook)
+
+
+# ---------------------------------------------------------------------------------------------------
+# tie: the heap (object graph + identity of the ignoreExprs list objects) before / after each real call, for the
+# Lean model of the operation (PPModel/Mod/HeapOps.lean, driver commands c12ignore / c12ws / c12copy / c12inv)
+# ---------------------------------------------------------------------------------------------------
+class Snapper:
+    """numbers objects (per snapshot, old objects first) and list objects (persistently) of one history"""
+
+    def __init__(self, pp, b):
+        self.pp, self.b = pp, b
+        self.cellidx, self.keep = {}, []
+
+    def snap(self, roots):
+        pp = self.pp
+        nodes, _, ids, order = gram.extract_multi(self.b, roots)
+        cell = []
+        for e in order:
+            L = e.ignoreExprs
+            if id(L) not in self.cellidx:
+                self.cellidx[id(L)] = len(self.cellidx)
+                self.keep.append(L)
+            cell.append(self.cellidx[id(L)])
+        self.keep.extend(order)
+        return dict(nodes=nodes, ids=ids, order=order, cell=cell,
+                    dflt=[bool(e.copyDefaultWhiteChars) for e in order],
+                    adj=[bool(e.adjacent) if isinstance(e, pp.Combine) else False for e in order],
+                    content={c: nodes[k][5] for k, c in enumerate(cell)})
+
+
+def heap_sexp(parts):
+    """parts: list of (snapshot, lo, hi): objects lo..hi-1 of each snapshot, concatenated (same id space)"""
+    nodes, cell, dflt, adj, content = [], [], [], [], {}
+    for sn, lo, hi in parts:
+        nodes += sn["nodes"][lo:hi]
+        cell += sn["cell"][lo:hi]
+        dflt += sn["dflt"][lo:hi]
+        adj += sn["adj"][lo:hi]
+        for c in sn["cell"][lo:hi]:
+            content.setdefault(c, sn["content"][c])
+    m = max(cell) + 1 if cell else 0
+    return [nodes, cell, dflt, adj, [content.get(c, []) for c in range(m)]]
+
+
+def _equal_ignorables(pp, order):
+    """two DISTINCT ignorables that compare equal (`in` is identity in the model, ParserElement.__eq__ in the code)"""
+    igs = {}
+    for e in order:
+        for x in e.ignoreExprs:
+            igs[id(x)] = x
+    xs = list(igs.values())
+    try:
+        return any(xs[i] == xs[j] for i in range(len(xs)) for j in range(i + 1, len(xs)))
+    except Exception:  # noqa
+        return True
+
+
+def all_objects(b):
+    return [v for v in b.env.values() if isinstance(v, b.pp.ParserElement)]
 
 
 def hist_job(job):
@@ -366,6 +432,61 @@ def hist_job(job):
     prog = job["prog"]
     out = {"n": 0, "probes": 0, "excluded": 0, "mism": [], "skip": None, "muts": {}}
     foot, keep, foots = {}, [], []
+    out["lines"], out["tie_skipped"] = [], {}
+    tie = not job.get("only")
+    st8 = {"snapper": None, "pre": None}
+    dw = gram._chars(pp.ParserElement.DEFAULT_WHITE_CHARS)
+    from ..sexp import Sym, dumps
+
+    def tie_skip(why):
+        out["tie_skipped"][why] = out["tie_skipped"].get(why, 0) + 1
+        st8["pre"] = None
+
+    def tie_pre(b):
+        if st8["snapper"] is None:
+            st8["snapper"] = Snapper(pp, b)
+        try:
+            # str() of a DelimitedList streamlines its content (core.py DelimitedList._generateDefaultName): the first
+            # extraction may therefore change the objects it reads; the second one reads a settled heap
+            st8["snapper"].snap(all_objects(b))
+            st8["pre"] = st8["snapper"].snap(all_objects(b))
+        except gram.Unsupported:
+            tie_skip("unsupported-object")
+        except RecursionError:
+            tie_skip("recursion")
+
+    def tie_post(b, op, expr, src=None):
+        pre = st8["pre"]
+        st8["pre"] = None
+        if pre is None:
+            return
+        n = len(pre["order"])
+        try:
+            extra = [expr] if op == "copy" else ([expr.ignoreExprs[-1]] if op == "ignore" and expr.ignoreExprs else [])
+            post = st8["snapper"].snap(pre["order"] + extra)
+        except gram.Unsupported:
+            return tie_skip("unsupported-object")
+        except RecursionError:
+            return tie_skip("recursion")
+        N = len(post["order"])
+        fuel = 4 * N + 16
+        after = heap_sexp([(post, 0, N)])
+        if op == "ignore":
+            if not expr.ignoreExprs or id(expr.ignoreExprs[-1]) in pre["ids"]:
+                return tie_skip("ignore-of-an-existing-object")
+            if _equal_ignorables(pp, post["order"]):
+                return tie_skip("equal-ignorables")
+            # the allocation Suppress(other.copy()) is a constructor: the model starts from the old objects as they
+            # were + the new objects as they are
+            before = heap_sexp([(pre, 0, n), (post, n, N)])
+            line = [Sym("c12ignore"), fuel, pre["ids"][id(expr)], post["ids"][id(expr.ignoreExprs[-1])], before, after]
+        elif op in ("lw_inplace", "iw_inplace"):
+            line = [Sym("c12ws"), op == "iw_inplace", fuel, pre["ids"][id(expr)], dw, heap_sexp([(pre, 0, n)]), after]
+        elif op == "copy":
+            line = [Sym("c12copy"), fuel, pre["ids"][id(b.env[src])], dw, heap_sexp([(pre, 0, n)]), after, post["ids"][id(expr)]]
+        else:
+            return
+        out["lines"].append({"op": op, "line": dumps(line)[1:-1]})
 
     def on_mut(b, op, var, expr, phase, k):
         if phase == "pre":
@@ -375,9 +496,32 @@ def hist_job(job):
             keep.extend(f.values())
             out["muts"][op] = out["muts"].get(op, 0) + 1
 
+    def on_mut_tie(b, op, var, expr, phase, k):
+        if op in ("ignore", "lw_inplace", "iw_inplace"):
+            if phase == "pre":
+                tie_pre(b)
+            else:
+                tie_post(b, op, expr)
+
+    def on_copy(b, src, var, phase):
+        if phase == "pre":
+            tie_pre(b)
+        else:
+            tie_post(b, "copy", b.env[var], src)
+
     try:
         ref = run_history(pp, prog, False)
         tst = run_history(pp, prog, True, on_mut)
+        if tie:
+            # a third build for the tie (the extraction reads str(e), which streamlines the content of a
+            # DelimitedList: kept away from the two builds whose behaviour is compared)
+            tb = run_history(pp, prog, True, on_mut_tie, on_copy)
+            # the invariant of the heap model on the live objects at the end of the history
+            try:
+                sn = Snapper(pp, tb).snap(all_objects(tb))
+                out["lines"].append({"op": "inv", "line": dumps([Sym("c12inv"), heap_sexp([(sn, 0, len(sn["order"]))])])[1:-1]})
+            except gram.Unsupported:
+                out["tie_skipped"]["unsupported-object"] = out["tie_skipped"].get("unsupported-object", 0) + 1
     except RecursionError:
         out["skip"] = "recursion"
         return out
@@ -504,12 +648,14 @@ def _refs(st):
 def run_hist(ctx, jobs, stream="oracle:in-place-after-composition"):
     res = common.pmap(hist_job, jobs)
     n = sum(r["n"] for r in res)
-    skips, muts = {}, {}
+    skips, muts, tskip = {}, {}, {}
     for r in res:
         if r["skip"]:
             skips[r["skip"]] = skips.get(r["skip"], 0) + 1
         for k, v in r["muts"].items():
             muts[k] = muts.get(k, 0) + v
+        for k, v in r.get("tie_skipped", {}).items():
+            tskip[k] = tskip.get(k, 0) + v
     mism = [m for r in res for m in r["mism"]]
     ctx.count_cases(stream, n, distinct_keys=[j["seed"] for j in jobs],
                     outcomes={"probe-inputs": n, "probes-compared": sum(r["probes"] for r in res),
@@ -517,6 +663,35 @@ def run_hist(ctx, jobs, stream="oracle:in-place-after-composition"):
                               "mismatch": len(mism), **{"op:" + k: v for k, v in muts.items()},
                               **{"skipped:" + k: v for k, v in skips.items()}},
                     samples=[{"prog": jobs[0]["prog"]}] if jobs else [])
+    # tie: the real calls vs the heap model, the heap invariant on the live objects (compiled Lean driver)
+    idx = [(k, l) for k, r in enumerate(res) for l in r.get("lines", [])]
+    verd = ctx.driver.run_sharded([l["line"] for _, l in idx]) if idx else []
+    hist, bad_op, bad_inv = {}, [], []
+    for (k, l), v in zip(idx, verd):
+        key = l["op"] + " " + v
+        hist[key] = hist.get(key, 0) + 1
+        if l["op"] == "inv":
+            if v != "(inv T)":
+                bad_inv.append({"prog": jobs[k]["prog"], "driver": v})
+        else:
+            if v.startswith("(heapop F") or not v.startswith("(heapop"):
+                bad_op.append({"op": l["op"], "prog": jobs[k]["prog"], "driver": v})
+            if v.endswith(" F)"):
+                bad_inv.append({"op": l["op"], "prog": jobs[k]["prog"], "driver": v})
+    st = ctx.cov["streams"].setdefault("tie:heap-operations", {"cases": 0, "diffs": 0, "outcomes": {}})
+    st["cases"] += len(idx)
+    st["diffs"] += len(bad_op) + len(bad_inv)
+    for k, v in hist.items():
+        st["outcomes"][k] = st["outcomes"].get(k, 0) + v
+    st["skipped"] = {**st.get("skipped", {}), **{k: st.get("skipped", {}).get(k, 0) + v for k, v in tskip.items()}}
+    ctx.cov["evaluations"] += len(idx)
+    ctx.cov["traces_validated_against_impl"] += len(idx)
+    n_ops = sum(1 for _, l in idx if l["op"] != "inv")
+    ctx.obligation("the real copy() / ignore() / leave_whitespace() / ignore_whitespace() calls == copyOp / ignorePush / wsOp of "
+                   "the heap model on the heap extracted before the call (heapMatch) [%d calls, %s]" % (n_ops, stream),
+                   not bad_op, json.dumps(bad_op[:2])[:1500])
+    ctx.obligation("heap invariant on the live objects: every element owns its ignoreExprs list object (invCheck) "
+                   "[%d heaps, %s]" % (len(idx), stream), not bad_inv, json.dumps(bad_inv[:2])[:1500])
     seen = set()
     for m in mism:
         key = tuple(sorted({st[1] for st in m["in_place_statements"]}))
